@@ -36,7 +36,7 @@ ALPHABET = [("user", "Start"), ("user", "Pause"), ("user", "Unpause"), ("user", 
             ("set1",), ("valve",), ("tick", 1), ("tick", 3)]
 METHODS = [
     "Wait: 100s",
-    "Pause: 0.2s\nWait: 100s",
+    "Set1: 5\nPause: 0.2s\nWait: 100s",
     "Mark: a\nBogus",
     "Set1: 5\nPause\nWait: 100s",
     "Wait: 0.3s\nBogus",
@@ -47,11 +47,13 @@ SEEDS = [
     # run 1 paused with the outputs still at their initial values, stopped while paused
     [("user", "Start"), ("tick", 1), ("user", "Pause"), ("tick", 1), ("user", "Stop"), ("tick", 3)],
     # run 1 drove both outputs, was paused and then restarted while paused (run 2 is starting)
-    [("user", "Start"), ("set1",), ("valve",), ("tick", 3), ("user", "Pause"), ("tick", 1), ("user", "Restart"), ("tick", 3)],
+    [("user", "Start"), ("set1",), ("valve",), ("tick", 3), ("tick", 2), ("user", "Pause"), ("tick", 1), ("user", "Restart"),
+     ("tick", 3)],
     # run 1 drove both outputs, was paused and stopped while paused
-    [("user", "Start"), ("set1",), ("valve",), ("tick", 3), ("user", "Pause"), ("tick", 1), ("user", "Stop"), ("tick", 3)],
+    [("user", "Start"), ("set1",), ("valve",), ("tick", 3), ("tick", 2), ("user", "Pause"), ("tick", 1), ("user", "Stop"),
+     ("tick", 3)],
     # run 1 running with driven outputs
-    [("user", "Start"), ("set1",), ("valve",), ("tick", 3)],
+    [("user", "Start"), ("set1",), ("valve",), ("tick", 3), ("tick", 2)],
 ]
 
 
@@ -88,6 +90,7 @@ class Monitor:
         self.shadow = None
         self.pause = None
         self.history = []          # (run_no, shadow, how it ended)
+        self.seen_run = {}         # register -> values it held at a tick end of the current run
         self.run_no = 0
         self.rid = None
         self.pending = []
@@ -96,6 +99,8 @@ class Monitor:
         self.checked_nontrivial = 0
         self.skipped_ambiguous = 0
         self.double = 0
+        self.pause_events = {}     # tick -> number of PAUSE events emitted by the engine
+        self.alt = []              # other readings of "most recent Pause" (a Pause executed while already paused)
         self.kinds = set()
         self.states = set()
 
@@ -107,6 +112,7 @@ class Monitor:
             for r in run.hw.registers.values():
                 if "safe_value" in r.options:
                     self.safe[r.name] = r.options["safe_value"]
+            self._listen(run)
         probs = []
         for rec in run.requests[nreq:]:
             if rec["kind"] == "user" and not rec["accepted"]:
@@ -118,6 +124,18 @@ class Monitor:
             probs += self.tick(run, ob)
         return probs
 
+    def _listen(self, run: Run):
+        """Count the PAUSE run-state events the engine emits to its listeners, per tick (observation only)."""
+        mon = self
+        emitter = run.engine.emitter
+        orig = emitter.emit_on_runstate_change
+
+        def emit_on_runstate_change(change):
+            if str(change.value) == "Pause":
+                mon.pause_events[run.tickno] = mon.pause_events.get(run.tickno, 0) + 1
+            return orig(change)
+        emitter.emit_on_runstate_change = emit_on_runstate_change
+
     def tick(self, run: Run, ob):
         probs = []
         pre, post = ob["pre_flags"], ob["flags"]
@@ -125,6 +143,7 @@ class Monitor:
         rid = ob["tags"]["Run Id"]
         if post["started"] and rid != self.rid:
             self.run_no += 1
+            self.seen_run = {r: {self.prev_out[r]} for r in OUTS}
         self.rid = rid if post["started"] else None
         writers = {WRITERS[c[1]] for c in ob["cmd"] if c[2] == "exec" and c[1] in WRITERS}
         was_paused = self.shadow is not None
@@ -143,9 +162,7 @@ class Monitor:
                     if r in self.pause["ambiguous"] or r in writers:
                         self.skipped_ambiguous += 1
                         continue
-                    accept = [self.shadow[r]]
-                    if self.pause["double"] and r in self.safe:
-                        accept.append(self.safe[r])
+                    accept = [self.shadow[r]] + [a[r] for a in self.alt]
                     if out[r] not in accept:
                         probs.append((self.classify(r, out[r], kind),
                                       f"tick {ob['n']}: Unpause executed ({kind} pause begun at tick {self.pause['tick']} of run "
@@ -156,7 +173,14 @@ class Monitor:
                                       f"tick {ob['n']}: after Unpause tag {r} = {out[r]!r} but the hardware holds {mem[r]!r}"))
                 self.history.append((self.pause["run_no"], self.shadow, "unpaused"))
                 self.shadow = None
-            elif not same_run or not post["paused"]:
+            elif same_run and post["paused"]:
+                if self.pause_events.get(ob["n"], 0) >= 1:
+                    # another Pause executed during the paused period: "the most recent Pause" may mean this one
+                    self.alt.append(dict(self.prev_out))
+                    if not self.pause["double"]:
+                        self.pause["double"] = True
+                        self.double += 1
+            else:
                 self.history.append((self.pause["run_no"], self.shadow, "run-ended"))
                 self.shadow = None
         if self.shadow is None and post["paused"] and post["started"]:
@@ -168,11 +192,17 @@ class Monitor:
             else:
                 kind = "method"
             self.shadow = dict(self.prev_out)
+            self.alt = []
+            n_exec = self.pause_events.get(ob["n"], 0)
             self.pause = {"tick": ob["n"], "run_no": self.run_no, "kind": kind, "ambiguous": set(writers),
-                          "double": n_pause >= 2}
-            if n_pause >= 2:
+                          "double": n_exec >= 2}
+            if n_exec >= 2:
+                # two Pause commands executed in this tick: the second one saw what the first one left, i.e. the safe values
+                self.alt.append({r: self.safe.get(r, self.prev_out[r]) for r in OUTS})
                 self.double += 1
         self.prev_out = dict(out)
+        for r in OUTS:
+            self.seen_run.setdefault(r, set()).add(out[r])
         self.pending = []
         self.states.add((ob["state"], post["started"], post["paused"], post["holding"], post["stopping"],
                          self.shadow is not None, tuple(out[r] != self.safe[r] for r in sorted(self.safe)),
@@ -187,6 +217,9 @@ class Monitor:
                 return f"C09:stale-prev-state:earlier-pause-of-same-run:{kind}"
         if r in self.safe and actual == self.safe[r]:
             return f"C09:left-at-safe-value:{r}:{kind}"
+        if actual not in self.seen_run.get(r, ()) and any(run_no < self.run_no for (run_no, _, _) in self.history):
+            # a value this run never produced, and an earlier run had a paused period
+            return f"C09:stale-prev-state:cross-run:{kind}"
         return f"C09:not-restored:{r}:{kind}"
 
 
@@ -267,7 +300,7 @@ def explore(item):
 
 
 def run(ctx):
-    depth = 5 if ctx.quick else 6
+    depth = 4 if ctx.quick else 6
     plen = 2
     n = len(ALPHABET)
     items = []
@@ -296,7 +329,7 @@ def run(ctx):
             ctx.violation(sig, what, rep)
     if tot["checked"] < 100 or tot["nontrivial_execs"] < 10 or tot["two_runs"] < 10:
         raise HarnessError("vacuous: hardly any Unpause was checked / no second run reached")
-    need = {"user", "method", "method>auto", "error", "error>auto"}
+    need = {"user", "method", "method>auto", "error"}
     if not need <= kinds:
         raise HarnessError(f"vacuous: pause kinds never unpaused: {sorted(need - kinds)}")
     if min(per_method_checked) == 0:
